@@ -18,6 +18,8 @@ NamesSmall == NamesOf(PrefixesSmall, {"a.dlt", "b.txt"}) \cup {<<"c1.dlt">>, <<"
 \* request histories: plain, nested, glob-character, climbing and absolute names (2 members: pairs; thorough: triples / 3 members)
 NamesHist == {<<"a.dlt">>, <<"b.txt">>, <<"d", "a.dlt">>, <<"d", "b.txt">>, <<"e", "a.dlt">>, <<"c1.dlt">>, <<"c[1].dlt">>,
               <<"..", "a.dlt">>, <<"/", "a.dlt">>}
+\* aliasing: names that denote the same target path through ".", "" and "d/.." components
+NamesAlias == {<<"a.dlt">>, <<".", "a.dlt">>, <<"d", "..", "a.dlt">>, <<"d", "a.dlt">>, <<"d", ".", "a.dlt">>, <<"d", "", "a.dlt">>, <<"b.txt">>}
 HistClasses == {"all", "ext", "dirp", "exact"}
 DirsQuick == {<<"d">>, <<"..", "e">>}
 AllClasses == {"all", "ext", "dirp", "exact", "nofilter"}
